@@ -5,7 +5,7 @@ import numpy as np
 from . import core, pylite_tie
 from .core import Case, cD, cN, clist
 
-obligations = pylite_tie.lsq_obligations   # source-regenerated tie of least_squares (harness/pylite_tie.py)
+obligations = pylite_tie.c02_obligations   # source-regenerated ties: least_squares + VectorSpline2D (harness/pylite_tie.py)
 
 ID = "C02"
 PROPS_FILE = "Props/C02.v"
